@@ -84,6 +84,32 @@ fn make_validation_table(long_string_refs: bool) -> Rc<Table> {
     )
 }
 
+/// Extracts the string from a cell of one of the special tables, or reports
+/// the file as malformed if the cell is null or holds an integer.
+fn expect_str<'a>(value: &'a Value, table_name: &str) -> io::Result<&'a str> {
+    match value.as_str() {
+        Some(string) => Ok(string),
+        None => invalid_data!(
+            "Malformed {:?} table: found {} where a string was expected",
+            table_name,
+            value
+        ),
+    }
+}
+
+/// Extracts the integer from a cell of one of the special tables, or reports
+/// the file as malformed if the cell is null or holds a string.
+fn expect_int(value: &Value, table_name: &str) -> io::Result<i32> {
+    match value.as_int() {
+        Some(number) => Ok(number),
+        None => invalid_data!(
+            "Malformed {:?} table: found {} where an integer was expected",
+            table_name,
+            value
+        ),
+    }
+}
+
 fn is_reserved_table_name(table_name: &str) -> bool {
     table_name == COLUMNS_TABLE_NAME
         || table_name == TABLES_TABLE_NAME
@@ -308,7 +334,8 @@ impl<F: Read + Seek> Package<F> {
                     table.read_rows(stream)?,
                 );
                 for row in rows {
-                    let table_name = row[0].as_str().unwrap().to_string();
+                    let table_name =
+                        expect_str(&row[0], TABLES_TABLE_NAME)?.to_string();
                     if names.contains(&table_name) {
                         invalid_data!(
                             "Repeated key in {:?} table: {:?}",
@@ -339,9 +366,10 @@ impl<F: Read + Seek> Package<F> {
                     table.read_rows(stream)?,
                 );
                 for row in rows {
-                    let table_name = row[0].as_str().unwrap();
+                    let table_name = expect_str(&row[0], COLUMNS_TABLE_NAME)?;
                     if let Some(cols) = columns_map.get_mut(table_name) {
-                        let col_index = row[1].as_int().unwrap();
+                        let col_index =
+                            expect_int(&row[1], COLUMNS_TABLE_NAME)?;
                         if cols.contains_key(&col_index) {
                             invalid_data!(
                                 "Repeated key in {:?} table: {:?}",
@@ -349,8 +377,11 @@ impl<F: Read + Seek> Package<F> {
                                 (table_name, col_index)
                             );
                         }
-                        let col_name = row[2].as_str().unwrap().to_string();
-                        let type_bits = row[3].as_int().unwrap();
+                        let col_name =
+                            expect_str(&row[2], COLUMNS_TABLE_NAME)?
+                                .to_string();
+                        let type_bits =
+                            expect_int(&row[3], COLUMNS_TABLE_NAME)?;
                         cols.insert(col_index, (col_name, type_bits));
                     } else {
                         invalid_data!(
@@ -374,16 +405,16 @@ impl<F: Read + Seek> Package<F> {
             if comp.exists(&stream_name) {
                 let stream = comp.open_stream(&stream_name)?;
                 for value_refs in table.read_rows(stream)?.into_iter() {
-                    let table_name = value_refs[0]
-                        .to_value(&string_pool)
-                        .as_str()
-                        .unwrap()
-                        .to_string();
-                    let column_name = value_refs[1]
-                        .to_value(&string_pool)
-                        .as_str()
-                        .unwrap()
-                        .to_string();
+                    let table_name = expect_str(
+                        &value_refs[0].to_value(&string_pool),
+                        VALIDATION_TABLE_NAME,
+                    )?
+                    .to_string();
+                    let column_name = expect_str(
+                        &value_refs[1].to_value(&string_pool),
+                        VALIDATION_TABLE_NAME,
+                    )?
+                    .to_string();
                     let key = (table_name, column_name);
                     if validation_map.contains_key(&key) {
                         invalid_data!(
@@ -416,31 +447,35 @@ impl<F: Read + Seek> Package<F> {
                 let key = (table_name.clone(), column_name);
                 if let Some(value_refs) = validation_map.get(&key) {
                     let is_nullable = value_refs[2].to_value(&string_pool);
-                    if is_nullable.as_str().unwrap() == "Y" {
+                    if expect_str(&is_nullable, VALIDATION_TABLE_NAME)? == "Y"
+                    {
                         builder = builder.nullable();
                     }
                     let min_value = value_refs[3].to_value(&string_pool);
                     let max_value = value_refs[4].to_value(&string_pool);
                     if !min_value.is_null() && !max_value.is_null() {
-                        let min = min_value.as_int().unwrap();
-                        let max = max_value.as_int().unwrap();
+                        let min =
+                            expect_int(&min_value, VALIDATION_TABLE_NAME)?;
+                        let max =
+                            expect_int(&max_value, VALIDATION_TABLE_NAME)?;
                         builder = builder.range(min, max);
                     }
                     let key_table = value_refs[5].to_value(&string_pool);
                     let key_column = value_refs[6].to_value(&string_pool);
                     if !key_table.is_null() && !key_column.is_null() {
                         builder = builder.foreign_key(
-                            key_table.as_str().unwrap(),
-                            key_column.as_int().unwrap(),
+                            expect_str(&key_table, VALIDATION_TABLE_NAME)?,
+                            expect_int(&key_column, VALIDATION_TABLE_NAME)?,
                         );
                     }
                     let category_value = value_refs[7].to_value(&string_pool);
                     if !category_value.is_null() {
-                        let category = category_value
-                            .as_str()
-                            .unwrap()
-                            .parse::<Category>()
-                            .ok();
+                        let category = expect_str(
+                            &category_value,
+                            VALIDATION_TABLE_NAME,
+                        )?
+                        .parse::<Category>()
+                        .ok();
                         if let Some(category) = category {
                             builder = builder.category(category);
                         }
@@ -448,7 +483,9 @@ impl<F: Read + Seek> Package<F> {
                     let enum_values = value_refs[8].to_value(&string_pool);
                     if !enum_values.is_null() {
                         let enum_values: Vec<&str> =
-                            enum_values.as_str().unwrap().split(';').collect();
+                            expect_str(&enum_values, VALIDATION_TABLE_NAME)?
+                                .split(';')
+                                .collect();
                         builder = builder.enum_values(&enum_values);
                     }
                 }
